@@ -167,7 +167,8 @@ def check_lock(chk: Check, repo: Repo) -> None:
     ys = cfg.stmt_nodes(lambda a: isinstance(a, ast.Expr) and isinstance(a.value, ast.Yield))
     ok = len(ys) >= 1 and all(any(w == "self._send_lock" for w in enclosing_with_items(y.withs)) for y in ys) and "asynccontextmanager" in " ".join(fi.decorators)
     chk.ob("send-ready-holds-lock", fi.site(), ok, "_send_ready is an asynccontextmanager whose every yield is inside `async with self._send_lock`", key="send-ready-holds-lock")
-    ws = attr_writes(repo, "_send_lock")
+    tcls = repo.cls("xknx.io.tunnel", "_Tunnel")
+    ws = [w for w in attr_writes(repo, "_send_lock") if w.func.cls is not None and (repo.is_subclass(w.func.cls, tcls) or repo.is_subclass(tcls, w.func.cls))]  # the tunnel's lock (other classes may have a slot of the same name)
     okw = len(ws) == 1 and ws[0].func.name == "__init__" and call_name(ws[0].stmt.value) == "asyncio.Lock"
     chk.ob("send-lock-slot", ws[0].func.site(ws[0].stmt) if ws else fi.site(), okw, "_send_lock is one asyncio.Lock created in __init__ and never replaced", key="send-lock-slot")
     sites = call_sites(repo, "_tunnelling_request")
